@@ -309,8 +309,10 @@ def random_history(rnd: random.Random, prop: str, length: int) -> tuple[dict, li
             if rnd.random() < 0.4:
                 gcls, gline = rnd.choice(GENERATED_BAD)
                 ev = dict(k="recvbad", p=gcls, line=gline)
-        if ev["k"] in ("recv", "send") and not ev.get("fault") and rnd.random() < 0.06:
-            ev["slow"] = True   # the peer stops reading for an hour while this step's writes are pending, then resumes
+        if prop in ("C03", "C12") and ev["k"] == "send" and not ev.get("fault") and rnd.random() < 0.3:
+            # the peer stops reading for an hour while the write of this send is pending, then resumes: the send completes
+            # - or gives up with a library error, the line not taken (a timeout of the library's own is legitimate)
+            ev["slow"] = True
         if ev["k"] == "recv" and ev.get("ack", 0) == 0 and rnd.random() < 0.12:
             ev["ack"] = 1       # a node may set the ack flag on anything it sends; it is handled all the same
         evs.append(ev)
